@@ -2,6 +2,7 @@ package props
 
 import (
 	"fmt"
+	"github.com/philpearl/plenc"
 	"reflect"
 	"testing"
 
@@ -19,6 +20,9 @@ type c10Op struct {
 	Val  vh.Val `json:"val"`
 	A    int    `json:"a"`
 	B    int    `json:"b"`
+	// Foreign (decodeInto): the bytes come from a twin instance with ProtoCompatibleArrays set, i.e. slices of
+	// length-delimited elements arrive in the repeated form, which a default-mode instance reads by appending
+	Foreign bool `json:"foreign,omitempty"`
 }
 
 type c10Case struct {
@@ -61,6 +65,7 @@ func genC10(t *rapid.T) c10Case {
 			op.Val = vh.GenVal(t, c.Types[op.Type], vh.VProfile{Cfg: cfg})
 		case k <= 7:
 			op.Kind = "decodeInto"
+			op.Foreign = rapid.IntRange(0, 3).Draw(t, "foreign") == 0
 		case k <= 8:
 			op.Kind = "decodeFresh"
 		case k == 9:
@@ -100,6 +105,7 @@ var c10 = &vh.Prop[c10Case]{
 		p := longLivedPlenc(c.Cfg) // history from every earlier case too
 		var bufs []c10Buf
 		var targets []c10Target
+		var twin *plenc.Plenc
 		decodesOfType := map[int]int{}
 		invariant := func(step int, what string) *vh.Failure {
 			for ti, tg := range targets {
@@ -240,10 +246,22 @@ var c10 = &vh.Prop[c10Case]{
 				}
 				tg := &targets[idx]
 				prior := tg.model
-				if err := vh.UnmarshalInto(p, tg.rv, b.data); err != nil {
+				data, mcfg := b.data, c.Cfg
+				if op.Foreign && !c.Cfg.ProtoArrays && !bt.Has(func(x *vh.TSpec) bool { return x.Kind == vh.KMap }) {
+					mcfg.ProtoArrays = true
+					if twin == nil {
+						twin = vh.NewPlenc(mcfg)
+					}
+					var err error
+					if data, err = vh.MarshalVal(twin, bt, b.v); err != nil {
+						return vh.Fail("C10/marshal-error", "step %d: twin instance: %v", step, err)
+					}
+					x.Label("decode-foreign-repeated-form")
+				}
+				if err := vh.UnmarshalInto(p, tg.rv, data); err != nil {
 					return vh.Fail("C10/decode-error", "step %d: %v", step, err)
 				}
-				tg.model = vh.Merge(bt, prior, b.v, c.Cfg)
+				tg.model = vh.Merge(bt, prior, b.v, mcfg)
 				tg.uses++
 				decodesOfType[b.typ]++
 				if vh.HasNonZeroLeaf(prior) && vh.HasNonZeroLeaf(b.v) {
